@@ -154,10 +154,209 @@ fn one<B: Backend>(rep: &mut Report, kp: &KeyPair<B>, keylabel: &str, msg: &[u8]
     rep.sample_class(&class, 1, || detail("ok", &tok));
 }
 
+/// a JSON object without floating-point members (serde_json reads those back exactly)
+pub fn gen_value(rng: &mut Rng, depth: u32) -> serde_json::Value {
+    use serde_json::Value;
+    let n = rng.below(5);
+    let mut m = serde_json::Map::new();
+    for _ in 0..n {
+        let key = match rng.below(6) {
+            0 => "sub".to_string(),
+            1 => "kid".to_string(),
+            2 => String::new(),
+            3 => "k\u{e9}\u{1f}\"\\".to_string(),
+            _ => format!("m{}", rng.below(1000)),
+        };
+        let v = match rng.below(8) {
+            0 => Value::Null,
+            1 => Value::Bool(rng.chance(1, 2)),
+            2 => Value::from(rng.next() as i64),
+            3 => Value::from(rng.next()),
+            4 => Value::String(String::from_utf8_lossy(&{
+                let l = rng.below(40);
+                rng.bytes(l)
+            }).into_owned()),
+            5 => Value::String("2039-01-01T00:00:00+00:00".into()),
+            6 if depth < 3 => Value::Array((0..rng.below(4)).map(|_| gen_value(rng, depth + 1)).collect()),
+            _ if depth < 3 => gen_value(rng, depth + 1),
+            _ => Value::from(7),
+        };
+        m.insert(key, v);
+    }
+    Value::Object(m)
+}
+
+/// Typed payloads and footers, and histories in which seals that must be refused (an encoder that
+/// fails after producing output) and unseals that must fail are mixed, on one thread and one key
+/// object, with seals that must round-trip.
+fn typed_histories<B: Backend>(opts: &Opts, rep: &mut Report) {
+    use paseto_json::Json;
+    use serde_json::Value;
+
+    use crate::monitors::c02::LossyFooter;
+    use crate::typed::*;
+    for p in [Purp::Local, Purp::Public] {
+        let stream = format!("c01.{}.{}.typed", B::NAME, p.name());
+        let sig_base = format!("C01|{}|{}", B::NAME, p.name());
+        let slow = B::VER == 1 && p == Purp::Public;
+        let n = if slow { opts.size(300, 3000) } else { opts.size(3000, 40000) };
+        // one key object per shard for the whole history
+        let mut krng = Rng::derive(opts.seed, &stream, opts.shard as u64);
+        let kp = KeyPair::<B>::gen_for(p, &mut krng);
+        let mut refused_before = 0u32; // refused operations since the last checked seal
+        for step in 0..n as u64 {
+            if step % opts.nshards as u64 != opts.shard as u64 {
+                continue;
+            }
+            let mut rng = Rng::derive(opts.seed, &stream, step + 1);
+            let aad: Vec<u8> = if B::HAS_AAD && rng.chance(1, 3) { rng.bytes(9) } else { vec![] };
+            let kind = rng.below(12);
+            let class = format!("{}.{}.typed-history", B::NAME, p.name());
+            let rb = refused_before;
+            let d = move |what: &str, extra: Value| json!({"backend": B::NAME, "purpose": p.name(), "step": step, "what": what, "refused_or_failed_operations_just_before": rb, "detail": extra});
+            match kind {
+                // --- operations that must be refused, after the encoder has produced output
+                0 | 1 | 2 | 3 => {
+                    let k = rng.below(4);
+                    let r = match kind {
+                        0 => guard(|| kp.seal_t(Json(FailAfter(k)), Vec::<u8>::new(), &aad).map(|_| ())),
+                        1 => guard(|| kp.seal_t(Json(bad_keys()), Json(json!({"kid": "k"})), &aad).map(|_| ())),
+                        2 => guard(|| kp.seal_t(Json(json!({"sub": "s"})), Json(FailAfter(k)), &aad).map(|_| ())),
+                        _ => {
+                            if rng.chance(1, 2) {
+                                guard(|| kp.seal_t(FailingRaw(rng.bytes(k * 7)), Vec::<u8>::new(), &aad).map(|_| ()))
+                            } else {
+                                guard(|| kp.seal_t(Raw(vec![1, 2, 3]), FailingFooter(rng.bytes(k * 7)), &aad).map(|_| ()))
+                            }
+                        }
+                    };
+                    match r {
+                        Ok(Err(_)) => rep.count("history.refused-seals"),
+                        Ok(Ok(())) => rep.violation(&format!("{sig_base}|unencodable-value-sealed"), d("a payload or footer whose encoder fails was sealed", json!({"kind": kind}))),
+                        Err(pn) => rep.violation(&format!("{sig_base}|seal-panic:refused-encode"), d(&pn, json!({"kind": kind}))),
+                    }
+                    refused_before += 1;
+                    rep.case(&class, fnv_parts(&[stream.as_bytes(), &step.to_le_bytes()]), true);
+                }
+                // --- unseals that must fail (forged, wrong payload type, garbage)
+                4 | 5 => {
+                    let msg = rng.bytes(12);
+                    if let Ok(Ok(tok)) = guard(|| kp.seal(&msg, b"", &aad)) {
+                        if kind == 4 {
+                            let (h, mut b, f) = split_token(&tok);
+                            let i = rng.below(b.len());
+                            b[i] ^= 0x10;
+                            let _ = guard(|| kp.open(&join_token(&h, &b, &f), &aad));
+                        } else {
+                            // authentic bytes that are not JSON, opened through the JSON payload type
+                            match guard(|| kp.open_t::<Json<Value>, Vec<u8>>(&tok, &aad).map(|_| ())) {
+                                Ok(Err(paseto_core::PasetoError::PayloadError(_))) => {}
+                                Ok(Ok(())) if serde_json::from_slice::<Value>(&msg).is_ok() => {}
+                                other => rep.violation(&format!("{sig_base}|non-json-claims-not-refused"), d("authentic non-JSON claims did not give PayloadError", json!({"result": format!("{:?}", other.map(|r| r.map_err(|e| err_kind(&e))))}))),
+                            }
+                        }
+                    }
+                    let _ = guard(|| kp.open("v4.local.!!!", &aad));
+                    refused_before += 1;
+                    rep.count("history.failed-unseals");
+                    rep.case(&class, fnv_parts(&[stream.as_bytes(), &step.to_le_bytes()]), true);
+                }
+                // --- seals that must round-trip
+                6 | 7 | 8 => {
+                    let claims = gen_value(&mut rng, 0);
+                    let footer = gen_value(&mut rng, 1);
+                    let res = guard(|| kp.seal_t(Json(claims.clone()), Json(footer.clone()), &aad));
+                    let ex = || json!({"claims": claims.to_string().chars().take(300).collect::<String>(), "footer": footer.to_string().chars().take(200).collect::<String>(), "aad": hx_short(&aad)});
+                    match res {
+                        Ok(Ok(tok)) => {
+                            let (_, _, fbytes) = split_token(&tok);
+                            if fbytes != serde_json::to_vec(&footer).unwrap() {
+                                rep.violation(&format!("{sig_base}|json-footer-bytes"), d("the token's footer is not the JSON encoding of the footer value", json!({"token": tok.chars().take(400).collect::<String>(), "footer_bytes": hx_short(&fbytes), "case": ex()})));
+                            }
+                            match guard(|| kp.open_t::<Json<Value>, Json<Value>>(&tok, &aad)) {
+                                Ok(Ok((c, f, shown))) => {
+                                    if c.0 != claims || f.0 != footer {
+                                        rep.violation(&format!("{sig_base}|mismatch:json"), d("JSON claims / footer differ after the round trip", json!({"token": tok.chars().take(400).collect::<String>(), "got_claims": c.0.to_string().chars().take(300).collect::<String>(), "case": ex()})));
+                                    }
+                                    if shown != tok {
+                                        rep.violation(&format!("{sig_base}|reparsed-token-prints-differently"), d("parse then Display changed the token", json!({"token": tok.chars().take(400).collect::<String>(), "shown": shown.chars().take(400).collect::<String>()})));
+                                    }
+                                }
+                                Ok(Err(e)) => rep.violation(&format!("{sig_base}|open-error:{}:json", err_kind(&e)), d("unseal of own JSON token returned Err", json!({"token": tok.chars().take(400).collect::<String>(), "case": ex()}))),
+                                Err(pn) => rep.violation(&format!("{sig_base}|open-panic"), d(&pn, ex())),
+                            }
+                        }
+                        Ok(Err(e)) => rep.violation(&format!("{sig_base}|seal-error:{}:json", err_kind(&e)), d("seal returned Err", ex())),
+                        Err(pn) => rep.violation(&format!("{sig_base}|seal-panic"), d(&pn, ex())),
+                    }
+                    if refused_before > 0 {
+                        rep.count("history.checked-seals-right-after-a-refused-operation");
+                    }
+                    refused_before = 0;
+                    rep.case(&class, fnv_parts(&[stream.as_bytes(), claims.to_string().as_bytes(), footer.to_string().as_bytes(), &aad]), true);
+                    rep.sample_class(&class, 1, || d("ok", ex()));
+                }
+                9 => {
+                    // raw bytes through the same key object
+                    let (ml, fl) = (rng.below(80), rng.below(20));
+                    let (msg, footer) = (rng.bytes(ml), rng.bytes(fl));
+                    one::<B>(rep, &kp, "history-key", &msg, &footer, &aad, false);
+                    if refused_before > 0 {
+                        rep.count("history.checked-seals-right-after-a-refused-operation");
+                    }
+                    refused_before = 0;
+                }
+                // --- tokens whose footer is not in the typed footer's own canonical form: the bytes carried
+                //     by the token are what is authenticated and what Display prints
+                _ => {
+                    let ml = rng.below(40);
+                    let msg = rng.bytes(ml);
+                    let texts = noncanonical_json();
+                    let ftxt = *rng.pick(&texts);
+                    let ex = || json!({"footer_text": ftxt, "msg": hx_short(&msg)});
+                    let Ok(Ok(tok)) = guard(|| kp.seal(&msg, ftxt.as_bytes(), &aad)) else {
+                        rep.violation(&format!("{sig_base}|seal-error:raw-footer"), d("seal failed", ex()));
+                        continue;
+                    };
+                    let want_f: Value = serde_json::from_str(ftxt).expect("catalogue entries are JSON");
+                    match guard(|| kp.open_t::<Raw, Json<Value>>(&tok, &aad)) {
+                        Ok(Ok((c, f, shown))) => {
+                            if c.0 != msg || f.0 != want_f {
+                                rep.violation(&format!("{sig_base}|mismatch:typed-footer"), d("claims / decoded footer differ", ex()));
+                            }
+                            if shown != tok {
+                                rep.violation(&format!("{sig_base}|reparsed-token-prints-differently"), d("a token parsed with a typed footer prints a different string", json!({"token": tok, "shown": shown, "case": ex()})));
+                            }
+                        }
+                        Ok(Err(e)) => rep.violation(&format!("{sig_base}|open-error:{}:typed-footer", err_kind(&e)), d("an authentic token whose footer is valid but not canonically spelled JSON was rejected when parsed with a Json footer", json!({"token": tok, "case": ex()}))),
+                        Err(pn) => rep.violation(&format!("{sig_base}|open-panic"), d(&pn, ex())),
+                    }
+                    let lf = *rng.pick(&["KID-7", " kid-7", "Kid-7\n", "kid-7"]);
+                    if let Ok(Ok(tok)) = guard(|| kp.seal(&msg, lf.as_bytes(), &aad)) {
+                        match guard(|| kp.open_t::<Raw, LossyFooter>(&tok, &aad)) {
+                            Ok(Ok((c, f, shown))) => {
+                                if c.0 != msg || f.0 != "kid-7" || shown != tok {
+                                    rep.violation(&format!("{sig_base}|mismatch:typed-footer"), d("claims / decoded footer / printed form differ (lossy footer type)", json!({"token": tok, "shown": shown})));
+                                }
+                            }
+                            Ok(Err(e)) => rep.violation(&format!("{sig_base}|open-error:{}:typed-footer", err_kind(&e)), d("an authentic token was rejected when parsed with a footer type whose decoding is lossy", json!({"token": tok, "footer": lf}))),
+                            Err(pn) => rep.violation(&format!("{sig_base}|open-panic"), d(&pn, json!({"token": tok}))),
+                        }
+                    }
+                    refused_before = 0;
+                    rep.case(&format!("{}.{}.typed-footer", B::NAME, p.name()), fnv_parts(&[stream.as_bytes(), &msg, ftxt.as_bytes(), lf.as_bytes(), &aad]), true);
+                    rep.sample_class(&format!("{}.{}.typed-footer", B::NAME, p.name()), 1, || d("ok", ex()));
+                }
+            }
+        }
+    }
+}
+
 fn backend<B: Backend>(opts: &Opts, rep: &mut Report) {
     let lens = payload_lengths(opts.thorough());
     let foots = footers();
     let mut idx: u64 = 0;
+    typed_histories::<B>(opts, rep);
     for p in [Purp::Local, Purp::Public] {
         let stream = format!("c01.{}.{}", B::NAME, p.name());
         // --- keys: generated, re-parsed from text, edge keys
@@ -264,7 +463,7 @@ pub fn run(opts: &Opts) {
     for_backends!(opts, backend, opts, &mut rep);
     rep.set(
         "rule",
-        json!("cases = (backend, purpose, sealing key, payload, footer, assertion) sealed with encrypt/sign (library randomness); distinct = distinct input tuples (the 'repeat' class seals one tuple N times to vary the RNG outcome and therefore counts once)"),
+        json!("cases = (backend, purpose, sealing key, payload, footer, assertion) sealed with encrypt/sign (library randomness); distinct = distinct input tuples (the 'repeat' class seals one tuple N times to vary the RNG outcome and therefore counts once); typed-history: per shard one key object and one thread carry a sequence of steps drawn from {seal that must be refused after the encoder produced output (failing Serialize impl, non-string map keys, failing payload / footer encoders), unseal that must fail, JSON claims + JSON footer round trip (footer bytes = serde_json, claims and footer equal, parse->Display identical), raw round trip, raw footer holding non-canonically spelled JSON opened through Json<Value> / a lossy footer type}"),
     );
     rep.finish(opts);
 }
